@@ -61,7 +61,7 @@ Definition gz_read_header (hcrc_ok : bool) (s : list Z) : outcome (list Z * list
 Definition maxBlockSize : Z := bgzf_MaxBlockSize.
 
 (** decompressor.readMember up to and including buf.readLimited(need, d.cr).
-    Error codes: 1 gzip header, 2 ErrNoBlockSize, 3 ErrCorrupt, 4 io.EOF (need = 0), 9 short input. *)
+    Error codes: 1 gzip header, 2 ErrNoBlockSize, 3 ErrCorrupt (need <= 0), 9 short input (io.ErrUnexpectedEOF). *)
 Definition bgzf_read_member (hcrc_ok : bool) (s : list Z) : outcome Z :=
   x <- gz_read_header hcrc_ok s ;;
   let '(extra, rest) := x in
@@ -69,8 +69,8 @@ Definition bgzf_read_member (hcrc_ok : bool) (s : list Z) : outcome Z :=
   if blockSize <? 0 then Err 2 else
   let skipped := zlen s - zlen rest in
   let need := blockSize - skipped in
-  if need =? 0 then Err 4 else
-  if need <? 0 then Err 3 else
+  (* if need <= 0 { return ErrCorrupt } *)
+  if need <=? 0 then Err 3 else
   (* r.size, err = io.ReadFull(src, r.data[:n]) with data [MaxBlockSize]byte *)
   chk ((0 <=? need) && (need <=? maxBlockSize)) (
   match take need rest with None => Err 9 | Some _ => Ok need end).
